@@ -154,6 +154,10 @@ def render(spec):
             any_body = True
             # the child extends the INHERITED property with a setter of its own, re-using the base's getter and deleter
             w.append("    @Root.p.setter\n    def p(self, value):\n        LOG.append(('body', 'p.set'))\n")
+        if ch.get("own_setattr"):
+            any_body = True
+            # the child has a __setattr__ of its own which does not go through the (wrapped) one of the base
+            w.append("    def __setattr__(self, name, value):\n        LOG.append(('body', '__setattr__'))\n        object.__setattr__(self, name, value)\n")
         if ch["adds"]:
             any_body = True
             w.append("    def extra(self):\n        LOG.append(('body', 'extra'))\n        return 3\n")
@@ -224,6 +228,9 @@ def specs(tier):
                         if ctor in ("none", "first") and not overrides and style != "dataclass":
                             out.append({"base": "DBC", "style": style, "invs": invs,
                                         "child": {"invs": cinvs, "ctor": ctor, "overrides": overrides, "adds": adds, "extends_prop": True}})
+                        if ctor in ("none", "first") and not overrides and style in ("plain", "no_init"):
+                            out.append({"base": "DBC", "style": style, "invs": invs,
+                                        "child": {"invs": cinvs, "ctor": ctor, "overrides": overrides, "adds": adds, "own_setattr": True}})
     return out
 
 
@@ -231,7 +238,7 @@ def feats(spec, op=None, seq=None):
     ch = spec["child"]
     return {"base": spec["base"], "style": spec["style"], "invs": "".join(spec["invs"]),
             "child": None if not ch else "{}|{}|{}{}{}".format("".join(ch["invs"]), ch["ctor"], "o" if ch["overrides"] else "-", "a" if ch["adds"] else "-",
-                                                              "x" if ch.get("extends_prop") else ""),
+                                                              ("x" if ch.get("extends_prop") else "") + ("s" if ch.get("own_setattr") else "")),
             "child_invs": None if not ch else "".join(ch["invs"]), "ctor": None if not ch else ch["ctor"],
             "op": op, "first_op": seq[0] if seq else None,
             "has_setattr_inv": any(c in "SA" for c in spec["invs"] + (ch["invs"] if ch else [])),
